@@ -76,12 +76,16 @@ func runStopScenario(c *Ctx, prop string, h *history, evs [][]byte, idx []int, f
 		return len(evs)
 	}
 	a := e2eAttempt{events: evs, terminal: "hang", cancelInHandler: -1, holdAfter: -1}
+	// every other scenario hands Stream a context of a foreign type: the per-attempt context the library derives from it
+	// then has a goroutine of its own, which must be gone as well once Stream has returned
+	a.foreignCtx = c.Rng.Side().Chance(1, 2)
 	if sc.slow {
 		a.slowHandler = 15 * time.Millisecond
 	}
 	var mapper gobinlog.MysqlTableMapper
 	var mapperFail *tableDef
 	var foreignByte byte
+	ghostAt := -1
 	cut := cutAfterTx(sc.atTx)
 	switch sc.cause {
 	case "eof", "err", "close", "reset", "short", "outofseq":
@@ -151,8 +155,31 @@ func runStopScenario(c *Ctx, prop string, h *history, evs [][]byte, idx []int, f
 		}
 		mapperFail = t
 		mapper = &hMapper{tables: h.tables, failFor: t.db + "." + t.name}
+		if q := c.Rng.Side(); q.Chance(1, 2) {
+			// the table whose lookup fails is only announced - a table the statement opened or locked and wrote no rows
+			// for (triggers, cascades, multi-table statements): the announcement alone ends the stream with the error
+			ghost := *t
+			ghost.db, ghost.name, ghost.id = "ghostdb", "announced_only", t.id+1000
+			for i := range a.events {
+				if i < len(idx) && idx[i] >= 0 && h.events[idx[i]].kind == "tablemap" {
+					ev := h.events[idx[i]]
+					resp := c.M.Call(mkEventReq(ev.cfg, Hdr{TS: ev.ts, SID: 7, Next: 0}, ghost.bodyVal(), c.Rng.Bytes(4)))
+					if b, ok := resp.Nth(0).Hex(); ok {
+						a.events = append(append(append([][]byte{}, a.events[:i+1]...), b), a.events[i+1:]...)
+						ghostAt = i + 1
+						mapperFail = &ghost
+						mapper = &hMapper{tables: h.tables, failFor: "ghostdb.announced_only"}
+					}
+					break
+				}
+			}
+		}
 	}
 	class := fmt.Sprintf("%s/ahead%v/slow%v/late-cancel%v", sc.cause, sc.ahead, sc.slow, sc.cancelBeforeError)
+	if ghostAt >= 0 {
+		class += "/announced-only-table"
+	}
+	c.R.Dist[fmt.Sprintf("caller-context-foreign-%v", a.foreignCtx)]++
 	if sc.cause == "foreign-packet" {
 		class += fmt.Sprintf("/first-byte-%#02x", foreignByte)
 	}
@@ -207,6 +234,9 @@ func runStopScenario(c *Ctx, prop string, h *history, evs [][]byte, idx []int, f
 		if sc.cause == "invalid" || sc.cause == "unsupported" || sc.cause == "unknown-table" || sc.cause == "foreign-packet" {
 			inj = cutAfterTx(sc.atTx - 1)
 		}
+		if ghostAt >= 0 {
+			inj = ghostAt
+		}
 		for i := range a.events {
 			j := i
 			if inj >= 0 && i == inj {
@@ -256,7 +286,9 @@ func runStopScenario(c *Ctx, prop string, h *history, evs [][]byte, idx []int, f
 		if inj >= 0 {
 			badAt = vh.I(int64(inj))
 		}
-		if sc.cause == "mapper-err" {
+		if sc.cause == "mapper-err" && ghostAt >= 0 {
+			badAt = vh.I(int64(ghostAt))
+		} else if sc.cause == "mapper-err" {
 			t := mapperFail
 			for i := range a.events {
 				if i < len(idx) && idx[i] >= 0 && h.events[idx[i]].kind == "tablemap" && h.events[idx[i]].table.name == t.name && h.events[idx[i]].table.db == t.db {
@@ -327,7 +359,7 @@ func runStopScenario(c *Ctx, prop string, h *history, evs [][]byte, idx []int, f
 		add("spec", "termination: Error() blocks after a stream ended by "+sc.cause+" (reader "+map[bool]string{true: "holding an event", false: "waiting for the network"}[sc.ahead]+")", "returns", "blocked")
 	}
 	if res.leaked {
-		add("spec", "termination: a library goroutine remains after Stream returned ("+sc.cause+")", "none", "startDumpFromBinlogPosition.func1 still running")
+		add("spec", "termination: a goroutine started by the library remains after Stream returned ("+sc.cause+")", "none", "startDumpFromBinlogPosition.func1 or the propagation goroutine of the per-attempt context still running")
 	}
 	if sc.cause != "connect-fail" && !masterCloses && !res.closedSeen {
 		add("spec", "termination: the connection to the master was not closed after Stream returned ("+sc.cause+")", "closed", "open")
@@ -435,6 +467,8 @@ func runC07(c *Ctx) {
 				a.events = evs[:2+r.Intn(len(evs)-2)]
 				a.terminal = r.PickS("close", "eof", "err", "reset")
 			}
+			// the kind of context the caller passes must not change the request: plain cancel, or with a deadline
+			a.deadlineCtx = r.Side().Chance(1, 2)
 			// the master's answer to the checksum announcement of this attempt
 			reply := "ok"
 			if r.Chance(1, 4) {
@@ -482,6 +516,7 @@ func runC07(c *Ctx) {
 				}
 				c.R.Dist["handshake_model_checked"]++
 				c.R.Count("announcement-" + reply)
+				c.R.Dist[fmt.Sprintf("caller-context-deadline-%v", a.deadlineCtx)]++
 				hdesc := fmt.Sprintf("server id %d, attempt %d at %q:%d, master answers the announcement with %s", sid, att, wantFile, wantOff, reply)
 				if res.returned && hs.Nth(0).String() != vh.L(obs...).String() {
 					c.R.Add(vh.Mismatch{Kind: "corr", What: "handshake: the requests the master received differ from the model", Case: hdesc,
